@@ -1783,23 +1783,28 @@ func (s sortedErrors) Less(i, j int) bool {
 
 	// compare remaining indices of the error string slices
 	// in order to create a total ordering.
-	for i := 1; i < errorSplitCount; i++ {
+	for k := 1; k < errorSplitCount; k++ {
 		switch {
 		// Handle when an expected index doesn't exist.
-		case len(fj) == i:
+		case len(fi) == k && len(fj) == k:
+			return s[i].s < s[j].s
+		case len(fj) == k:
 			return false
-		case len(fi) == i:
+		case len(fi) == k:
 			return true
 		}
 
-		switch nless(fi[i], fj[i]) {
+		switch nless(fi[k], fj[k]) {
 		case -1:
 			return true
 		case 1:
 			return false
 		}
 	}
-	return false
+	// Fields that are equal as numbers need not be equal as text ("1" and
+	// "01"): let the text decide, so that the order is total and equal
+	// errors end up next to each other, where errorSort drops duplicates.
+	return s[i].s < s[j].s
 }
 
 // splitErrorLocation splits an error string into n fields at ":".  A source
